@@ -6,7 +6,7 @@ import re
 import tempfile
 from unittest import mock
 
-from harness import common, tlegen
+from harness import common, tlegen, numeric
 
 LEVEL = "proof"
 PRINTABLE = [chr(32 + i) for i in range(95)]
@@ -87,6 +87,8 @@ def run(ctx):
         "model domain is 7-bit ASCII lines; Python's str.isdigit()/int() on non-ASCII digits are outside the model",
         "hand-written model M_Checksum.v tied to tlefile.py by this run's sweep (model evaluated by vm_compute inside Coq)",
     ]
+    numeric.regen_ast(ctx, "tle", "Tle._checksum, _read_tle (lines given), _parse_tle, __init__ call order; float()/int()/strptime/"
+                      "timedelta stay the hand models of M_TleText (validated against CPython by the C02 correspondence run)")
     ctx.build_props("props/C09.v")
     tles = list(tlegen.CORPUS[:1]) + [tlegen.random_tle(ctx.rng) for _ in range(ctx.n(2, 14))]
     tmpdir = tempfile.mkdtemp(prefix="verif-c09-", dir="/var/tmp")
